@@ -1,7 +1,7 @@
 (* C05 — a vertical comparison partitions both genomes (nothing missing, nothing twice). *)
 From Coq Require Import List Arith Bool String Permutation.
-From PyHam Require Import Tax Ortho Mapper Preds.
-From PyHam.proofs Require Import PartitionFacts.
+From PyHam Require Import Tax Ortho Loader Mapper Preds Whole.
+From PyHam.proofs Require Import PartitionFacts WholeFacts.
 Import ListNotations.
 
 (* For every forest aligned with the species tree (wfb: the invariant C02 establishes for loaded
@@ -9,7 +9,7 @@ Import ListNotations.
    ones, the values of RETAINED and the members of the DUPLICATE lists; the genes of genome A are,
    each exactly once, the lost ones, the keys of RETAINED and the keys of DUPLICATE. *)
 Theorem c05_partition : forall t fo A D,
-  wfb t fo = true -> A <> D ->
+  wfbc t fo = true -> A <> D ->
   let m := hogmap fo A D in
   Permutation (genome_refs fo D)
               (hm_gain m ++ map snd (hm_retained m) ++ List.concat (map snd (hm_dup m))) /\
@@ -20,7 +20,7 @@ Proof. exact partition. Qed.
 Print Assumptions c05_partition.
 
 Theorem c05_sizes : forall t fo A D,
-  wfb t fo = true -> A <> D ->
+  wfbc t fo = true -> A <> D ->
   let m := hogmap fo A D in
   List.length (genome_refs fo D) =
     List.length (hm_gain m) + List.length (hm_retained m) + list_sum (map (fun e => List.length (snd e)) (hm_dup m)) /\
@@ -28,6 +28,21 @@ Theorem c05_sizes : forall t fo A D,
     List.length (hm_loss m) + List.length (hm_retained m) + List.length (hm_dup m).
 Proof. exact sizes. Qed.
 Print Assumptions c05_sizes.
+
+(* end to end: for every consistent input (C02: c02_consistent_forest) the document loads and every vertical
+   comparison on the loaded forest is such a partition *)
+Theorem c05_every_consistent_input : forall t d hs,
+  consistent t d hs ->
+  exists l, load t d = Ok l /\ forall A D, A <> D ->
+    let fo := forest_of l in let m := hogmap fo A D in
+    Permutation (genome_refs fo D) (hm_gain m ++ map snd (hm_retained m) ++ List.concat (map snd (hm_dup m))) /\
+    Permutation (genome_refs fo A) (hm_loss m ++ map fst (hm_retained m) ++ map fst (hm_dup m)) /\
+    NoDup (genome_refs fo D) /\ NoDup (genome_refs fo A).
+Proof.
+  intros t d hs Hc. destruct (consistent_forest t d hs Hc) as (l & El & Hw & _). exists l. split; [exact El|].
+  intros A D HAD. exact (partition t (forest_of l) A D Hw HAD).
+Qed.
+Print Assumptions c05_every_consistent_input.
 
 (* non-vacuity: a family with a duplication; Mammalia-level genome against a leaf genome *)
 Definition m0 : hmeta := {| m_id := None; m_og := None; m_props := []; m_scores := []; m_synth := false |}.
@@ -40,7 +55,7 @@ Definition fam : hog :=
                                       (None, HGene "c1" [1; 1])])].
 Definition fo0 : forest := {| fo_tops := [fam]; fo_singles := [HGene "h9" [0; 0; 1]] |}.
 Example c05_nonvacuous :
-  wfb tr fo0 = true /\
+  wfbc tr fo0 = true /\
   hm_gain (hogmap fo0 [1] [0; 0; 1]) = [RGene "h9"] /\
   hm_dup (hogmap fo0 [1] [0; 0; 1]) = [(RHog 1, [RGene "h1"; RGene "h2"])] /\
   hm_loss (hogmap fo0 [0; 1] [1; 0; 1]) = [RHog 2] /\
